@@ -1091,7 +1091,9 @@ func (l *lexer) scanRawToken() int {
 						return 0
 					}
 					return -1
-				case r == '\n':
+				case r == '\n', r == '`' && l.cmdSubst == '`':
+					// (a backquote substitution ends at its closing
+					// backquote, also inside a comment)
 					l.unread()
 					break Comment
 				}
@@ -1717,7 +1719,10 @@ func (l *lexer) linebreak() bool {
 				l.mark(0)
 			}
 		default:
-			if !hash {
+			if !hash || r == '`' && l.cmdSubst == '`' {
+				// (the closing backquote of the substitution ends
+				// a comment too)
+				l.comment(hash)
 				l.unread()
 				return true
 			}
